@@ -544,15 +544,24 @@ func (p *pathState) assertCond(cond *Term, label string) {
 	if v, complete := p.evalBool(q); complete && v {
 		cex, found = p.model, true
 	} else if b, ok := q.constBool(); !ok || b {
-		res, m := p.check(q)
-		ex.mu.Lock()
-		ls.Queries++
-		ex.mu.Unlock()
-		switch res {
-		case resSat:
-			cex, found = m, true
-		case resUnknown:
-			ex.inconclusive("solver unknown on assertion " + label)
+		// a conjunction is refuted conjunct by conjunct: not(a and b) is satisfiable iff
+		// not(a) or not(b) is; the queries are much smaller (independent slices)
+		parts := flattenAnd(cond, 1024)
+		for _, part := range parts {
+			if b, ok := part.constBool(); ok && b {
+				continue
+			}
+			res, m := p.check(mkAnd(mkNot(part), notK))
+			ex.mu.Lock()
+			ls.Queries++
+			ex.mu.Unlock()
+			if res == resSat {
+				cex, found = m, true
+				break
+			}
+			if res == resUnknown {
+				ex.inconclusive("solver unknown on assertion " + label)
+			}
 		}
 	}
 	if found {
@@ -580,6 +589,23 @@ func (p *pathState) assertCond(cond *Term, label string) {
 	}
 	// continue the path under cond
 	p.assume(cond)
+}
+
+// flattenAnd returns the conjuncts of c (at most max; else c itself).
+func flattenAnd(c *Term, max int) []*Term {
+	var out []*Term
+	var rec func(t *Term) bool
+	rec = func(t *Term) bool {
+		if t.op == OpAnd {
+			return rec(t.args[0]) && rec(t.args[1])
+		}
+		out = append(out, t)
+		return len(out) <= max
+	}
+	if !rec(c) {
+		return []*Term{c}
+	}
+	return out
 }
 
 func countLabel(vs []Violation, label string) int {
@@ -620,7 +646,7 @@ func NewExplorer(prog *ssa.Program, fn *ssa.Function, cfg Config) *Explorer {
 		cfg.StepBudget = 20_000_000
 	}
 	if cfg.MaxCex == 0 {
-		cfg.MaxCex = 2
+		cfg.MaxCex = 6 // replays stop at the first natively confirmed one per label
 	}
 	for i := range cfg.Known {
 		t, err := ParsePredicate(cfg.Known[i].When)
